@@ -15,6 +15,7 @@ ENGINES = {
     "seq0": {"shards_thorough": 14},
     "seqp": {"shards_thorough": 14},
     "seqx": {"shards_thorough": 14},
+    "seqrb": {"shards_thorough": 14},
 }
 
 PROPS = {
@@ -68,7 +69,7 @@ PROPS = {
         "assumptions": ["as C01"],
     },
     "C15": {
-        "engines": ["seq", "seq0", "conc", "seqx", "concx"],
+        "engines": ["seq", "seq0", "seqrb", "conc", "seqx", "concx"],
         "footprint": {"state": ["stats"]},
         "nontrivial": r"^match txs=\[[^\]]+\]",
         "rule": "E-seq/E-seq0 histories; the four counters compared after every op and judged by C15.ok against the events the harness "
@@ -100,7 +101,7 @@ PROPS = {
     },
     "C10": {
         "engines": ["seqr"],
-        "footprint": {"rebuild": "*", "state": ["vis", "hid", "cnt", "list"]},
+        "footprint": {"rebuild": "*", "state": ["vis", "hid", "cnt", "list"], "read": "*"},
         "nontrivial": r"^rebuild ok",
         "rule": "E-seq with constructor ops: at random points of random histories (zero quantities allowed) the level is rebuilt from its own "
                 "snapshot / From<&Snapshot> / package / package JSON / PriceLevelData / serde JSON / Display->FromStr, and from lying external "
@@ -157,8 +158,8 @@ PROPS = {
         "assumptions": ["as C03; collision resistance of SHA-1 truncated to 122 bits on the messages namespace ++ decimal(counter) (C14_distinct_or_collision makes the reduction explicit)"],
     },
     "C16": {
-        "engines": ["codec"],
-        "footprint": {"txt": "*", "parsed": "*"},
+        "engines": ["codec", "seqr"],
+        "footprint": {"txt": "*", "parsed": "*", "read": "*"},
         "nontrivial": r"^parsed ok ",
         "rule": "E-codec valid stream: for each of the 13 text codec types (order, update, id, side, tif, peg, transaction, transaction list, "
                 "match result, statistics, snapshot summary, queue, level) 300 (thorough 3000 per shard) type-directed values with boundary "
@@ -168,8 +169,8 @@ PROPS = {
         "assumptions": ["listings (queue, level) are compared as sets ordered by (timestamp, id); generated queues/levels use distinct timestamps"],
     },
     "C17": {
-        "engines": ["json"],
-        "footprint": {"json": "*", "jparsed": "*"},
+        "engines": ["json", "seqr"],
+        "footprint": {"json": "*", "jparsed": "*", "read": "*"},
         "nontrivial": r"^jparsed ok ",
         "rule": "E-json: for each of the 12 serde types (order, update, id, side, tif, peg, transaction, match result, statistics, snapshot, "
                 "level data, snapshot package) 300 (thorough 3000 per shard) type-directed values with the boundary numbers of C16 (2^53+1, u64::MAX, "
